@@ -204,9 +204,29 @@ func history(k *mon.Case, tieBreak bool) {
 				k.Inconclusive("build")
 				return
 			}
-			if err := n.Apply(b); err != nil {
+			// one valid block in four is applied while the application is set to fail its next
+			// Finalize call (the notification of a finality raise; an engine that makes that call
+			// must not let its failure separate the stored raise from its event)
+			armed := r.Intn(4) == 0
+			if armed {
+				n.ABI.FailAt = "Finalize"
+			}
+			before := n.Tip().Header.ID
+			err = n.Apply(b)
+			fired := armed && n.ABI.FailAt == ""
+			n.ABI.FailAt = ""
+			if err != nil && !fired {
 				k.Inconclusive("valid-block-rejected")
 				return
+			}
+			if fired {
+				k.Count("application_faults_in_Finalize", 1)
+				m.after("apply-with-failing-Finalize", !bytes.Equal(before, n.Tip().Header.ID), map[string]any{"block": node.DescribeBlock(b), "error": fmt.Sprint(err)})
+				if !bytes.Equal(n.Tip().Header.ID, b.Header.ID) {
+					k.Inconclusive("block-not-applied-after-application-fault")
+					return
+				}
+				continue
 			}
 			kinds["apply"]++
 			m.after("apply", true, map[string]any{"block": node.DescribeBlock(b)})
